@@ -68,7 +68,7 @@ func genC11(verifSeed int64, tier string, idx int) *core.Scenario {
 	}
 	sp.Docs = append(sp.Docs, docToB64(shared))
 	wd := serialisableDoc(r, "w", 4)
-	switch r.Intn(6) { // documents a writer might want to "complete" before serializing
+	switch r.Intn(8) { // documents a writer might want to "complete" before serializing
 	case 0:
 		wd.Metadata.Version = ""
 	case 1:
@@ -77,6 +77,9 @@ func genC11(verifSeed int64, tier string, idx int) *core.Scenario {
 		wd.Metadata.Tools = nil
 	case 3:
 		wd.Metadata.Name, wd.Metadata.Authors = "", nil
+	case 4:
+		// a component that was never given an identifier (nothing refers to it)
+		wd.NodeList.Nodes = append(wd.NodeList.Nodes, &sbom.Node{Name: "unnamed-id", Type: sbom.Node_PACKAGE})
 	}
 	sp.Docs = append(sp.Docs, docToB64(wd))
 	g2 := gen.New(r.Int63(), gen.Profile{MaxNodes: maxNodes, Tag: "s"}) // same tag: identifiers overlap with the shared list
